@@ -3,8 +3,10 @@ package types
 import (
 	"fmt"
 	"go/token"
+	"io"
 	"iter"
 	"maps"
+	"os"
 	"path/filepath"
 	"slices"
 
@@ -85,6 +87,11 @@ func Load(patterns []string, options ...func(c *packages.Config)) (*Universe, er
 
 				if pkgDir := p.Dir; pkgDir != "" {
 					x, _ := dirhash.HashDir(pkgDir, "", dirhash.Hash1)
+					if p.Module != nil && p.Module.Dir == pkgDir {
+						// the module root holds gengo.sum itself; hashing it would make the
+						// root package look changed after every run
+						x, _ = hashDirWithoutSumFile(pkgDir)
+					}
 					u.sumFile.Data[p.PkgPath] = x
 
 					if mod := pkg.Module(); mod != nil {
@@ -156,4 +163,17 @@ func (u *Universe) LocateInPackage(pos token.Pos) Package {
 		}
 	}
 	return nil
+}
+
+func hashDirWithoutSumFile(dir string) (string, error) {
+	files, err := dirhash.DirFiles(dir, "")
+	if err != nil {
+		return "", err
+	}
+	files = slices.DeleteFunc(files, func(name string) bool {
+		return name == "gengo.sum"
+	})
+	return dirhash.Hash1(files, func(name string) (io.ReadCloser, error) {
+		return os.Open(filepath.Join(dir, name))
+	})
 }
